@@ -17,7 +17,7 @@ use std::path::{Path, PathBuf};
 pub static SPEC: PropSpec = PropSpec {
     id: "C13",
     level: "exploration",
-    rule: "cases: the 8 corpus projects, the 74 single-file corpus programs, generated multi-package projects (1-6 libraries, 1-3 files per package, cross-package traits/impls/generics) and ill-typed variants with errors injected in several files (diagnostic order); each is observed R times (R=5 quick, 12 thorough) under different creation orders, filesystems, threads and one fresh process; a case is non-trivial when it has >= 2 imports or >= 2 diagnostics and at least two runs differed in directory enumeration order or probe-HashSet order; distinct by hash of the file set",
+    rule: "cases: the 8 corpus projects, the 74 single-file corpus programs, generated multi-package projects (1-6 libraries, 1-3 files per package, cross-package traits/impls/generics) ill-typed variants with errors injected in several files (diagnostic order), and 20 ambiguity programs in which the compiler picks among candidates (2-4 enums sharing a variant that is used unqualified in 4 positions, one method declared by two / three bounds, duplicate impls / functions / types, 12 independent errors, a variant and a struct of one name, equally named inherent methods, several missing imports; observed 2R times); each is observed R times (R=5 quick, 12 thorough) under different creation orders, filesystems, threads and one fresh process; a case is non-trivial when it has >= 2 imports or >= 2 diagnostics and at least two runs differed in directory enumeration order or probe-HashSet order; distinct by hash of the file set",
     eval_counter: "runs_compared",
     assumptions: &[
         "directory enumeration order is varied through tmpfs creation order and one ext4 copy; the orders actually read back are counted in the evidence",
@@ -246,6 +246,39 @@ pub fn inject_errors(rng: &mut Rng, files: &mut [(PathBuf, String)]) -> usize {
     n
 }
 
+/// single-file programs in which the compiler has to pick among several candidates
+pub fn ambiguity_programs() -> Vec<(String, String)> {
+    let mut out = Vec::new();
+    let describe = "trait Describe { fn describe(Self) -> string; }\n";
+    for n in 2..=4usize {
+        let names = ["Shape", "Slot", "Cell", "Gap"];
+        let mut enums = String::new();
+        let mut impls = String::new();
+        for e in names.iter().take(n) {
+            enums.push_str(&format!("enum {} {{ Empty, Full{}(int32) }}\n", e, e));
+            impls.push_str(&format!("impl Describe for {} {{ fn describe(self: {}) -> string {{ \"{}\" }} }}\n", e, e, e));
+        }
+        out.push((format!("shared-variant-unconstrained-{}", n), format!("{}{}{}fn main() -> unit {{\n    let x = Empty;\n    let _ = string_println(Describe::describe(x));\n    ()\n}}\n", describe, enums, impls)));
+        out.push((format!("shared-variant-annotated-{}", n), format!("{}{}{}fn main() -> unit {{\n    let a: {} = Empty;\n    let _ = string_println(Describe::describe(a));\n    ()\n}}\n", describe, enums, impls, names[n - 1])));
+        out.push((format!("shared-variant-pattern-{}", n), format!("{}{}{}fn pick(s: {}) -> int32 {{ match s {{ Empty => 0, _ => 1 }} }}\nfn main() -> unit {{\n    let _ = string_println(int32_to_string(pick({}::Empty)));\n    ()\n}}\n", describe, enums, impls, names[0], names[0])));
+        out.push((format!("shared-variant-argument-{}", n), format!("{}{}{}fn take(s: {}) -> string {{ Describe::describe(s) }}\nfn main() -> unit {{\n    let _ = string_println(take(Empty));\n    ()\n}}\n", describe, enums, impls, names[1])));
+    }
+    out.push(("method-in-two-bounds".into(), "trait A { fn m(Self) -> int32; }\ntrait B { fn m(Self) -> int32; }\nstruct S { v: int32 }\nimpl A for S { fn m(self: S) -> int32 { 1 } }\nimpl B for S { fn m(self: S) -> int32 { 2 } }\nfn g[T: A + B](t: T) -> int32 { t.m() }\nfn main() -> unit {\n    let _ = string_println(int32_to_string(g(S { v: 0 })));\n    ()\n}\n".into()));
+    out.push(("method-in-three-bounds".into(), "trait A { fn m(Self) -> int32; }\ntrait B { fn m(Self) -> int32; }\ntrait C { fn m(Self) -> int32; }\nstruct S { v: int32 }\nimpl A for S { fn m(self: S) -> int32 { 1 } }\nimpl B for S { fn m(self: S) -> int32 { 2 } }\nimpl C for S { fn m(self: S) -> int32 { 3 } }\nfn g[T: C + A + B](t: T) -> int32 { t.m() }\nfn main() -> unit {\n    let _ = string_println(int32_to_string(g(S { v: 0 })));\n    ()\n}\n".into()));
+    out.push(("duplicate-impls".into(), "trait A { fn m(Self) -> int32; }\nstruct S { v: int32 }\nstruct R { v: int32 }\nimpl A for S { fn m(self: S) -> int32 { 1 } }\nimpl A for R { fn m(self: R) -> int32 { 1 } }\nimpl A for S { fn m(self: S) -> int32 { 2 } }\nimpl A for R { fn m(self: R) -> int32 { 2 } }\nfn main() -> unit {\n    let _ = string_println(int32_to_string(A::m(S { v: 0 }) + A::m(R { v: 0 })));\n    ()\n}\n".into()));
+    out.push(("duplicate-functions-and-types".into(), "struct S { v: int32 }\nstruct S { w: int32 }\nenum E { A }\nenum E { B }\nfn f() -> int32 { 1 }\nfn f() -> int32 { 2 }\nfn g() -> int32 { 1 }\nfn g() -> bool { true }\nfn main() -> unit {\n    let _ = string_println(int32_to_string(f() + g()));\n    ()\n}\n".into()));
+    let mut many = String::new();
+    for i in 0..12 {
+        many.push_str(&format!("fn bad{}() -> int32 {{ missing{}(1) + other{} }}\n", i, i, i));
+    }
+    many.push_str("fn main() -> unit {\n    ()\n}\n");
+    out.push(("many-independent-errors".into(), many));
+    out.push(("variant-and-struct-share-name".into(), "struct Point { v: int32 }\nenum Kind { Point(int32), Other }\nfn main() -> unit {\n    let p = Point { v: 1 };\n    let k = Point(2);\n    let _ = string_println(int32_to_string(p.v));\n    ()\n}\n".into()));
+    out.push(("inherent-methods-same-name".into(), "struct A { v: int32 }\nstruct B { v: int32 }\nstruct C { v: int32 }\nimpl A { fn get(self: A) -> int32 { 1 } }\nimpl B { fn get(self: B) -> int32 { 2 } }\nimpl C { fn get(self: C) -> int32 { 3 } }\nfn pick(x: int32) -> int32 { let u = if x > 0 { mk_a() } else { mk_a() }; u.get() }\nfn mk_a() -> A { A { v: 0 } }\nfn main() -> unit {\n    let _ = string_println(int32_to_string(pick(1)));\n    ()\n}\n".into()));
+    out.push(("missing-imports-and-packages".into(), "package Main\nimport Zeta\nimport Alpha\nimport Mid\n\nfn main() -> unit {\n    let _ = string_println(int32_to_string(Zeta::f(1) + Alpha::f(1) + Mid::f(1) + Nope::f(1)));\n    ()\n}\n".into()));
+    out
+}
+
 fn run(ctx: &mut Ctx) {
     let tier = ctx.tier;
     let seed = ctx.seed;
@@ -281,6 +314,21 @@ fn run(ctx: &mut Ctx) {
         let mut rng = Rng::keyed(seed, "c13-single", i as u64, 0);
         let name = d.file_name().unwrap().to_string_lossy().to_string();
         ctx.case(&format!("corpus_single/{}", name), |c| check_project(c, &format!("corpus_single/{}", name), &files, &mut rng, runs.min(5), &scratch));
+    }
+    // programs whose meaning / diagnostics depend on a choice among several candidates (ambiguous
+    // constructors and methods, duplicate definitions, many independent errors): the choice must not
+    // follow hash-map iteration order, so these run more often than the rest
+    for (k, (name, text)) in ambiguity_programs().into_iter().enumerate() {
+        if !ctx.mine(k as u64 + 11) {
+            continue;
+        }
+        let files = vec![(PathBuf::from("main.gom"), text)];
+        let mut rng = Rng::keyed(seed, "c13-ambig", k as u64, 0);
+        let label = format!("ambiguity/{}", name);
+        ctx.case(&label.clone(), |c| {
+            check_project(c, &label, &files, &mut rng, runs * 2, &scratch);
+            c.count("ambiguity_programs", 1);
+        });
     }
     // generated projects, well-typed and ill-typed
     let n = tier.pick(64u64, 1200u64) / ctx.nshards as u64 + 1;
